@@ -58,7 +58,8 @@ theorem strictCong_ok (env : Env κ) (inp : Bytes) : (strictCong (κ := κ) env.
   jr_enter := fun _ _ _ => trivial
   jr_leave := fun _ _ => trivial
   jr_adjust := fun _ _ => trivial
-  jr_load := fun _ _ _ _ => trivial
+  jr_load_lex := fun _ _ _ => trivial
+  jr_load_scan := fun _ _ _ => trivial
 
 def eraseP (p : Parser κ) : Parser κ := { p with x := eraseX p.x }
 
@@ -67,8 +68,8 @@ theorem PR_iff (cfg : TagCfg) (p₁ p₂ : Parser κ) : (strictCong cfg).PR p₁
   obtain ⟨a2, b2, c2, d2, e2, x2⟩ := p₂
   simp only [Cong.PR, strictCong, eraseP, Parser.mk.injEq]
   constructor
-  · rintro ⟨rfl, rfl, rfl, rfl, rfl, rfl, -, -⟩; exact ⟨rfl, rfl, rfl, rfl, rfl, rfl⟩
-  · rintro ⟨rfl, rfl, rfl, rfl, rfl, rfl⟩; exact ⟨rfl, rfl, rfl, rfl, rfl, rfl, trivial, trivial⟩
+  · rintro ⟨rfl, rfl, rfl, rfl, rfl, rfl, -⟩; exact ⟨rfl, rfl, rfl, rfl, rfl, rfl⟩
+  · rintro ⟨rfl, rfl, rfl, rfl, rfl, rfl⟩; exact ⟨rfl, rfl, rfl, rfl, rfl, rfl, trivial⟩
 
 /-- **`Parser.parse`: strict vs non-strict.** Either the strict parse fails with the ambiguity error
 of a guard refusal (and the guard of the simulator it leaves behind refuses that very tag), or the
